@@ -33,8 +33,9 @@ class C13(Prop):
                      policies=policies)
 
     @staticmethod
-    def cfg_layer(name, gen, policies):
-        return Layer(name, lambda: (("cfg", c) for c in gen()), rep=lambda c: GC.is_rep(c[1]), policies=policies)
+    def cfg_layer(name, gen, policies, rep=True):
+        return Layer(name, lambda: (("cfg", c) for c in gen()), rep=(lambda c: GC.is_rep(c[1])) if rep else None,
+                     policies=policies)
 
     def layers(self, tier, seed):
         pl = ["natural@plain", "1@plain", "2@int"]
@@ -45,7 +46,10 @@ class C13(Prop):
                     self.pda_layer("PDA(2,2,2,<=2)/names:reserved (every 3rd)",
                                    lambda: (c for k, c in enumerate(GP.pda_cases(2, 2, 2, 0, 2)) if k % 3 == 0), adv),
                     self.cfg_layer("CFG(2,2,2,<=3)", lambda: GC.cfg_cases(2, 2, 2, 0, 3),
-                                   ["natural@plain", "1@plain", "natural@pda", "1@pda", "2@pda", "3@pda", "natural@mixedval", "natural@mixedter"])]
+                                   ["natural@plain", "1@plain", "natural@pda", "1@pda", "2@pda", "3@pda", "natural@mixedval", "natural@mixedter"]),
+                    self.cfg_layer("CFG(3,2,2,<=2)/names:mixedpda", lambda: GC.cfg_cases(3, 2, 2, 0, 2), ["natural@mixedpda", "1@mixedpda"], rep=False),
+                    self.pda_layer("PDA(1 state): two transitions with the same push of 3 symbols + one short transition",
+                                   GP.same_long_push_cases, pl[:1], rep=None)]
         return [self.pda_layer("PDA(2,2,2,<=2)", lambda: GP.pda_cases(2, 2, 2, 0, 2), pl + ["3@plain", "s%d@plain" % seed], rep=None),
                 self.pda_layer("PDA(1,2,2,<=4)", lambda: GP.pda_cases(1, 2, 2, 3, 4), pl[:2]),
                 self.pda_layer("PDA(2,2,2,3) every 5th", lambda: (c for k, c in enumerate(GP.pda_cases(2, 2, 2, 3, 3)) if k % 5 == 0), pl[:2]),
@@ -53,7 +57,10 @@ class C13(Prop):
                 self.pda_layer("PDA(3,1,2,<=3)", lambda: GP.pda_cases(3, 1, 2, 0, 3), pl[:2], rep=None),
                 self.pda_layer("PDA(2,2,2,<=2)/names:reserved", lambda: GP.pda_cases(2, 2, 2, 0, 2), adv),
                 self.cfg_layer("CFG(2,2,2,<=3)", lambda: GC.cfg_cases(2, 2, 2, 0, 3), ["natural@plain", "1@plain", "2@pda", "3@pda", "natural@mixedval", "1@mixedval", "natural@mixedter"]),
-                self.cfg_layer("CFG(2,2,3,<=2)", lambda: GC.cfg_cases(2, 2, 3, 0, 2), ["natural@plain", "2@pda"])]
+                self.cfg_layer("CFG(2,2,3,<=2)", lambda: GC.cfg_cases(2, 2, 3, 0, 2), ["natural@plain", "2@pda"]),
+                self.cfg_layer("CFG(3,2,2,<=3)/names:mixedpda", lambda: GC.cfg_cases(3, 2, 2, 0, 3), ["natural@mixedpda", "1@mixedpda"], rep=False),
+                self.pda_layer("PDA(1 state): two transitions with the same push of 3 symbols + one short transition",
+                               GP.same_long_push_cases, pl[:2], rep=None)]
 
     N = {"quick": 3, "thorough": 4}
 
@@ -92,7 +99,7 @@ class C13(Prop):
         scheme = ctx.variant or "plain"
         n = ref["n"]
         if case[0] == "cfg":
-            g = ctx.call(O.build_cfg, case[1], scheme if scheme in ("pda", "mixedval", "mixedter") else "plain", "full")
+            g = ctx.call(O.build_cfg, case[1], scheme if scheme in ("pda", "mixedval", "mixedter", "mixedpda") else "plain", "full")
             if not ctx.returns(g, "C13.build"):
                 return
             p = ctx.call(g.value.to_pda)
@@ -107,7 +114,7 @@ class C13(Prop):
                             xb = ctx.call(O.extract_pda, pb.value)
                             if ctx.returns(xb, "C13.to_pda.extract", operand="CFG()"):
                                 self._cmp(ctx, "C13.to_pda.lang", xb.value.lang_empty_stack(n), set(), operand="CFG()")
-                    _, from_s = word_map(case[1], scheme if scheme == "mixedter" else "plain")
+                    _, from_s = word_map(case[1], scheme if scheme in ("mixedter", "mixedpda") else "plain")
                     self._cmp(ctx, "C13.to_pda.lang", {from_s(w) for w in x.value.lang_empty_stack(n)}, ref["L"],
                               result=x.value.describe())
             return
